@@ -117,9 +117,34 @@ def addIdentifiers (s : St) (target : Node) : Res :=
   | .fatal d => .fatal (St.diag s d) d
   | .crash e => .crash s e
 
-/-- `context.remove_identifiers_from_context(target)` -/
+mutual
+/-- `unravel_names(node, _get_name=fullname_of)`: the FULL names of the targets. -/
+def unravelFullNames : Node → UR
+  | .seq kind elts _ =>
+    if kind = "Tuple".toList || kind = "List".toList then unravelFullNamesL elts
+    else .crash "TypeError".toList
+  | n =>
+    if n.isNameable then
+      match namesOf false n with
+      | .ok _ f => .ok [f]
+      | .fatal d => .fatal d
+      | .crash e => .crash e
+    else .crash "TypeError".toList
+def unravelFullNamesL : List Node → UR
+  | [] => .ok []
+  | n :: r =>
+    match unravelFullNames n with
+    | .ok a =>
+      match unravelFullNamesL r with
+      | .ok b => .ok (a ++ b)
+      | x => x
+    | x => x
+end
+
+/-- `context.remove_identifiers_from_context(target)`: removal is by FULL name, so `del a.attr` /
+`del a[i]` (full names `a.attr`, `a[]`) never unbind `a`. -/
 def removeIdentifiers (s : St) (target : Node) : Res :=
-  match unravelNames target with
+  match unravelFullNames target with
   | .ok names => .ok { s with ctx := names.foldl (fun c n => Context.remove c n) s.ctx }
   | .fatal d => .fatal (St.diag s d) d
   | .crash e => .crash s e
@@ -132,9 +157,10 @@ def removeIdentifiersL (s : St) : List Node → Res
   | [] => .ok s
   | t :: r => removeIdentifiers s t >>>= fun s => removeIdentifiersL s r
 
-/-- `context.add_arguments_to_context(arguments)`: plain `add` of every parameter name. -/
+/-- `context.add_arguments_to_context(arguments)`: every parameter name is added with
+`is_argument=True`, so it shadows any outer binding of that name. -/
 def addArguments (s : St) (ps : Params) : St :=
-  { s with ctx := ps.all.foldl (fun c n => Context.add c (Context.nameSym n)) s.ctx }
+  { s with ctx := ps.all.foldl (fun c n => Context.add c (Context.nameSym n) true) s.ctx }
 
 /-! ### call records -/
 
@@ -486,7 +512,8 @@ def visit (env : Env) (mn : Str) : Node → St → Res
     | .done r => r
     | .generic s => visit env mn t s >>>= fun s => visit env mn v s
   | .delete targets, s =>
-    removeIdentifiersL s targets >>>= fun s => visitList env mn targets s
+    -- visit_Delete: generic_visit first, then unbind
+    visitList env mn targets s >>>= fun s => removeIdentifiersL s targets
   | .forLoop t iter body orelse, s =>
     addIdentifiers s t >>>= fun s =>
     visit env mn t s >>>= fun s => visit env mn iter s >>>= fun s =>
